@@ -2,4 +2,4 @@ From Coq Require Import ExtrOcamlBasic.
 From Coq Require Import ZArith.
 From MT Require Import Barrier.BarrierModel.
 Extraction Language OCaml.
-Separate Extraction BinNums.N BinInt.Z.add BinInt.Z.mul BinInt.Z.opp BinInt.Z.div_eucl init_state step label lval ret_ok stack_list is_excess bstate nthr top nxt thr.
+Separate Extraction BinNums.N BinInt.Z.add BinInt.Z.mul BinInt.Z.opp BinInt.Z.div_eucl init_state step label lval ret_ok stack_list walk is_excess bstate nthr top nxt thr.
